@@ -8,7 +8,7 @@ from xck import tree as xtree
 from xck.check import check as xcheck
 
 REFUSAL = re.compile(r'smaller than minimum|Nothing to do|too large to be expressed|Invalid new size|bigger than the size of the device|would exceed the maximum|'
-                     r'requires|not support|cannot|Cannot|must|Please run|is mounted|larger than|too small|No such|Invalid|invalid|greater than', re.I)
+                     r'requires|not support|cannot|Cannot|must|Please run|is mounted|larger than|too small|No such|Invalid|invalid|greater than|has not been fully tested|Use the force option', re.I)
 
 def parse_trace(path):
     ev = []
@@ -108,7 +108,9 @@ def job(j):
         return (cid, 'ok' if after == data else 'bad', '' if after == data else 'resize2fs -P modified the image', res)
     if rc != 0:
         if REFUSAL.search(out) and 'No space left' not in out:
-            if after != data:
+            # resize2fs extends an image *file* to the requested size before it looks at the filesystem; what it appends beyond the
+            # old end (zeros and a final '0' character) is not inside the filesystem
+            if after[:len(data)] != data:
                 diff = [i for i in range(0, min(len(after), len(data)), 1024) if after[i:i + 1024] != data[i:i + 1024]][:5]
                 return (cid, 'bad', 'refused (%s) but the image changed at byte offsets %s (size %d -> %d)' % (out.strip().splitlines()[-1][:80], diff, len(data), len(after)), res)
             return (cid, 'refused', '', res)
